@@ -199,6 +199,31 @@ impl RtoManager {
     }
 }
 
+#[cfg(feature = "verif")]
+impl StunMessageTimeout {
+    pub(crate) fn verif_entries(&self) -> Vec<(TransactionId, Instant, Duration)> {
+        self.timeouts
+            .iter()
+            .map(|item| (item.0.transaction_id, item.0.instant, item.0.timeout))
+            .collect()
+    }
+}
+
+#[cfg(feature = "verif")]
+impl RtoManager {
+    #[allow(clippy::type_complexity)]
+    pub(crate) fn verif_state(&self) -> (Option<Instant>, Duration, Duration, u32, u32, u32) {
+        (
+            self.latest,
+            self.last_rto,
+            self.calculator.rtt,
+            self.calculator.rm,
+            self.calculator.rc,
+            self.calculator.last_rm,
+        )
+    }
+}
+
 #[cfg(test)]
 mod stun_timout_item {
     use super::*;
